@@ -58,6 +58,7 @@ class EnvBoundaryMPS():
 
         self.psi = psi
         self._env = {}
+        self.opts_svd = opts_svd  # default truncation of boundary MPSs in measure_nsite
 
         self.offset = 0
 
@@ -338,7 +339,10 @@ class EnvBoundaryMPS():
         self.xrange = (0, self.psi.Nx) # (min(site[0] for site in sites), max(site[0] for site in sites) + 1)
         self.yrange = (min(site[1] for site in sites), max(site[1] for site in sites) + 1)
         dirn = 'lr'
-        return _measure_nsite(self, *operators, sites=sites, dirn=dirn)
+        # Boundary MPSs with inserted operators may need larger bond dimensions (or other charge sectors) than those stored in the environment;
+        # truncate them as the environment itself was truncated, if this is known.
+        opts_svd = self.opts_svd if getattr(self, 'opts_svd', None) else None
+        return _measure_nsite(self, *operators, sites=sites, dirn=dirn, opts_svd=opts_svd)
 
     def measure_2site(self, O, P, xrange=None, yrange=None, pairs='corner <=', dirn='v', opts_svd=None, opts_var=None):
         r"""
